@@ -3,11 +3,13 @@
 // This stands for the ~200 generated default methods of VisitMut, which are not modelled.
 pub trait VisitMutWith<V>: Sized {
     spec fn vmc_req(self, v: V) -> bool;
+    #[verifier::prophetic]
     spec fn vmc_ens(self, v: V, s2: Self, v2: V) -> bool;
     fn visit_mut_children_with(&mut self, v: &mut V)
         requires old(self).vmc_req(*old(v)),
         ensures old(self).vmc_ens(*old(v), *final(self), *final(v));
     spec fn vm_req(self, v: V) -> bool;
+    #[verifier::prophetic]
     spec fn vm_ens(self, v: V, s2: Self, v2: V) -> bool;
     fn visit_mut_with(&mut self, v: &mut V)
         requires old(self).vm_req(*old(v)),
